@@ -85,6 +85,8 @@ def beh_text(b):
              "rg:%d" % b.get("rg", 0), "mode:%d" % b.get("mode", 0)]
     if "ar" in b:
         parts.append("ar:%d" % b["ar"])
+    if b.get("gc"):
+        parts.append("gc:%d" % b["gc"])
     if b.get("bc"):
         parts.append("bc:" + ",".join("%d=%d" % kv for kv in b["bc"]))
     return ";".join(parts)
@@ -197,7 +199,15 @@ def rand_opts(rng, profile, level):
     if rng.random() < p.get("p_ctr", 0.25):
         for k in rng.sample([0, 1, 2, 3], rng.randrange(1, 3)):
             o["c%d" % k] = rng.choice([0, 1, 5, 12, 1000, 123456])
-    if rng.random() < p.get("p_time", 0.0):
+    if p.get("time_multi"):
+        # several time options at one level (a budget together with the way it is accounted)
+        if rng.random() < p.get("p_time", 0.0):
+            o["xt"] = rng.choice([0, 1, 40, 100, 1000, 5000, 30000])
+        if rng.random() < p.get("p_time", 0.0) * 0.7:
+            o["mt"] = rng.choice([0, 100, 2000, 30000])
+        if rng.random() < p.get("p_time", 0.0):
+            o["sk"] = rng.choice([0, 1, 1])
+    elif rng.random() < p.get("p_time", 0.0):
         which = rng.choice(p.get("time_kinds", [0, 1, 2]))
         if which == 0:
             o["xt"] = rng.choice([0, 1, 40, 100, 1000, 5000])
@@ -221,6 +231,9 @@ def rand_beh(rng, profile):
             b["mod"] = rng.choice([2, 3, 3, 4, 5])
             b["step"] = rng.choice([1, 7, 40])
             b["ar"] = rng.randrange(b["mod"])
+    if b["mode"] == 2 and rng.random() < profile.get("p_gen_cost", 0.0):
+        # input generation that costs time (outside the timed section): the two ways of accounting the budget differ
+        b["gc"] = rng.choice([200, 2000, 20000])
     if rng.random() < profile.get("p_bcounter", 0.15):
         b["bc"] = [(k, rng.choice([0, 3, 77, 4096])) for k in rng.sample([0, 1, 2, 3], rng.randrange(1, 3))]
     if rng.random() < profile.get("p_nobench", 0.03):
@@ -362,6 +375,21 @@ def gen_spec(rng, profile=None):
         x, y = rng.sample(argb, 2)
         x.argtype, x.args = "i64", list(rng.choice([["-1", "-9223372036854775808", "5", "-2"], ["-2", "-1", "7"]]))
         y.argtype, y.args = "u64", list(rng.choice([["18446744073709551615", "9223372036854775808", "5"], ["18446744073709551614", "18446744073709551615"]]))
+    if rng.random() < profile.get("p_budget_scenario", 0.0):
+        # a benchmark whose number of rounds depends strongly on HOW its time budget is accounted: expensive input generation
+        # outside the timed section, cheap calls, a max_time between the two accountings, skip_ext_time set by attribute
+        # (own or inherited) - so that a run-time `skip_ext_time = false` (and nothing else) visibly changes the run
+        cands = [b for b in items if isinstance(b, Bench) and b.kind == "plain"]
+        if cands:
+            b = rng.choice(cands)
+            b.beh = {"cost": 100, "step": 0, "mod": 1, "mode": 2, "gc": rng.choice([2000, 5000])}
+            b.opts = dict(b.opts or {})
+            b.opts.update({"sc": 12, "ss": 1, "xt": rng.choice([700, 1000]), "sk": 1})
+            for k in ("mt", "th", "_thform", "_thraw", "ig"):
+                b.opts.pop(k, None)
+            sp.clock = (10 ** 9, 1, 1, 1000)
+            sp.clock_os = rng.random() < 0.3
+            sp.budget_scenario = True
     rng.shuffle(items)
     # declaration order of benches follows their position in the (shuffled) registration list
     for i, it in enumerate(items):
